@@ -140,6 +140,7 @@ type HarnessResult struct {
 	Funcs        []string
 	Secs         float64
 	Observed     []Observation
+	UninitReads  map[string]string
 	Defs         int
 }
 
@@ -227,6 +228,7 @@ func RunHarness(l *Loaded, fn *ssa.Function, cfg HarnessConfig) (res *HarnessRes
 	res.BranchQueries = e.BranchQueries
 	res.BranchSecs = e.BranchSecs
 	res.Observed = e.Observed
+	res.UninitReads = e.UninitReads
 	res.Defs = len(e.Defs)
 	for f := range e.FuncsSeen {
 		if isHarnessRT(f) {
